@@ -179,6 +179,18 @@ CHECKS["C10"] = dict(
     technique="Lean 4 proof (heap model, prefix-dependence lemma by induction on depth, induction over histories); regenerated inventory; snapshot differential",
     ref="§5 C10")
 
+CHECKS["C08"] = dict(
+    text="Lean: the dispatch skeleton shared by the vectorising elements (scalar overload or fall through to vectorise of itself) as d2 / d1 "
+         "over nested lists, with the element-wise laws for every scalar overload and all lists (list x scalar, scalar x list, list x list "
+         "position by position with vy_zip's 0 padding, per-item getElem forms, one more nesting level, fuel independence), and kernel-checked "
+         "table theorems over the translator's classification of every documented-vectorising element's function body "
+         "(documented_vectorising_conform, hand_classified_are_exactly_the_rest). Tie: classification regenerated each run; the shared "
+         "helper `vectorise` driven with a labelled pairing function vs the Lean skeleton; element-wise oracle on the real elements for flat / "
+         "nested / eager / lazy arguments in all shapes.",
+    note=COMMON_NOTE + "Partial: scalar overloads are opaque (T5) and conformance is syntactic; the oracle uses the element on scalars as the item reference. Known finding F19c (∆f).",
+    technique="Lean 4 proof (equational laws of the skeleton, induction for fuel independence, decide +kernel over regenerated classification); differential skeleton correspondence; element-wise oracle",
+    ref="§5 C08")
+
 NOT_YET = {}
 
 def main():
